@@ -2,7 +2,7 @@ import Nstd.Common.Basic
 import Nstd.Avl.Model
 /-
   Line protocol of the Avl area (Map / MultiMap, property C01).
-  Containers: 0 = Map<Key,int>, 1 = MultiMap<Key,int>, 2 = a second Map<Key,int>.
+  Containers: 0 = Map<Key,int>, 1 = MultiMap<Key,int>, 2 = a second Map, 3 = a second MultiMap.
     reset | dom <lo> <hi> | obs <0|1|2>
     <c> ins k v | insat p k v | rmkey k | rmat p | rmfront | rmback | clear
     <c> find k | has k | count k | front | back | nop | wb | assign <src> | insall <src> | copy <src>
@@ -20,7 +20,7 @@ structure World where
   hi : Int := -1
   lvl : Nat := 2
 
-def World.init : World := { cs := [St.init false, St.init true, St.init false] }
+def World.init : World := { cs := [St.init false, St.init true, St.init false, St.init true] }
 
 def retStr : Ret → String
   | .none => "-"
@@ -94,12 +94,13 @@ def stepLine (w : World) (ws : List String) : World × String :=
               match w.cs[j]? with
               | none => (w, "bad-op")
               | some sj =>
-                if j = c ∨ s.multi ∨ sj.multi then (w, "bad-op")
+                -- copies only between two different containers of the same kind; bulk insert is Map-only
+                if j = c ∨ s.multi ≠ sj.multi ∨ (op = "insall" ∧ s.multi) then (w, "bad-op")
                 else
                   -- `copy`: destroy the container and copy-construct it (same loop as `operator=`,
                   -- started from a fresh container)
                   let r := if op = "assign" then s.assignFrom sj
-                           else if op = "copy" then (St.init false).assignFrom sj
+                           else if op = "copy" then (St.init s.multi).assignFrom sj
                            else s.insertAll sj
                   (setC w c r.1, obs w r.1 ⟨.none, r.2⟩)
           else
